@@ -1478,6 +1478,68 @@ func (pc *progressCtx) parEval(S int64) condEval {
 				}
 			}
 		}
+		// `helper(p, precedence) == nil`: the helper is evaluated in the stable state with its integer arguments as named
+		// unknowns, on every combination of outcomes of its tests of them (at most three tests); the condition is
+		// decided when all of them agree
+		if bo, isBo := v.(*ssa.BinOp); isBo && (bo.Op == token.EQL || bo.Op == token.NEQ) {
+			for _, pr := range [][2]ssa.Value{{bo.X, bo.Y}, {bo.Y, bo.X}} {
+				hc, isHC := pr[0].(*ssa.Call)
+				if !isHC || !isNilConst(pr[1]) || hc.Call.StaticCallee() == nil || !pc.m.InModule(hc.Call.StaticCallee()) || hc.Call.StaticCallee().Blocks == nil {
+					continue
+				}
+				callee := hc.Call.StaticCallee()
+				args := make([]any, len(hc.Call.Args))
+				for i, a := range hc.Call.Args {
+					if isInteger(a.Type()) {
+						args[i] = iSym{name: fmt.Sprintf("arg%d", i)}
+					} else {
+						args[i] = iObj{"parser"}
+					}
+				}
+				if len(args) != len(callee.Params) {
+					continue
+				}
+				agreed, first, decided := true, "", true
+				for bits := 0; bits < 8 && decided; bits++ {
+					ip := pc.m.parserInterp(S, S, pc.pm.precLit, func(field string, tok int64) bool {
+						_, reg := registered(field)[pc.tokName[tok]]
+						return reg
+					})
+					n := 0
+					ip.branch = func(iSym, *ssa.If) (bool, bool) {
+						n++
+						if n > 3 {
+							return false, false
+						}
+						return bits&(1<<(n-1)) != 0, true
+					}
+					res, ok := ip.Run(callee, args)
+					ans := ""
+					switch res.(type) {
+					case iNil:
+						ans = "nil"
+					case iFn, *iClosure:
+						ans = "fn"
+					}
+					if !ok || ans == "" || ip.stuck != "" || n > 3 {
+						decided = false
+						break
+					}
+					if first == "" {
+						first = ans
+					} else if ans != first {
+						agreed = false
+					}
+				}
+				if decided && agreed && first != "" {
+					isNil := first == "nil"
+					if bo.Op == token.NEQ {
+						return true, !isNil
+					}
+					return true, isNil
+				}
+			}
+		}
 		// any other condition: evaluate it in the stable state (pure helpers of the parser are followed)
 		if _, isCall := v.(*ssa.Call); !isCall {
 			ip := pc.m.parserInterp(S, S, pc.pm.precLit, func(field string, tok int64) bool {
